@@ -61,7 +61,7 @@ double complex _vnacommon_lu(complex double *a, int *row_index, int n)
 		max = temp;
 	    }
 	}
-	row_scale[i] = max;
+	row_scale[i] = (max != 0.0) ? 1.0 / max : 0.0;
 	row_index[i] = i;
     }
 
